@@ -36,9 +36,6 @@ func VerifH11p() {
 		sym.Stop()
 	}
 	data := verifData1()
-	if sym.Tier(0, 1) == 1 {
-		data = verifData(2)
-	}
 	start := sym.Int64("start", 0, verifR)
 	step := sym.Int64("step", 1, verifR)
 	lookback := sym.Int64("lookback", 1, verifR)
@@ -52,7 +49,11 @@ func VerifH11p() {
 	var other *promql.Result
 	switch variant {
 	case 0: // more shards than series, and a remainder: 3 series on 2 / 4 shards
-		sym.SetGOMAXPROCS(2 * sym.IntRange("shards", 2, 4))
+		shards := sym.IntRange("shards", 2, 4)
+		if sym.Tier(0, 1) == 0 && shards == 3 {
+			sym.Stop() // quick: 2 and 4 shards (3 series: one shard holds two series / one shard is empty)
+		}
+		sym.SetGOMAXPROCS(2 * shards)
 		other = verifExecRange(e, &stub.Queryable{Ser: data}, qs, start, end, step)
 	case 1: // storage returns the series in the reverse order
 		rev := []*stub.Series{data[2], data[1], data[0]}
